@@ -28,14 +28,15 @@ def run(ctx):
     h2 = collections.Counter()
     r["violations"] = list(r.get("violations", [])) + p_recv.failed_pack_histories(ctx.rng, ctx.scale(150, 3000), h2)
     r["violations"] += p_recv.reused_argument_histories(ctx.rng, ctx.scale(300, 6000), h2)
-    r["evaluations"] = r.get("evaluations", 0) + h2["failed-pack:sessions"] + h2["reused-arguments:sessions"]
+    r["violations"] += p_recv.large_backlog_histories(ctx.rng, ctx.scale(40, 400), h2)
+    r["evaluations"] = r.get("evaluations", 0) + h2["failed-pack:sessions"] + h2["reused-arguments:sessions"] + h2["large-backlog:sessions"]
     r.setdefault("histogram", {}).update(dict(h2))
     r["rule"] = ("joint client/server histories (client calls, server calls with every id class: outstanding / search / retired / never issued / 0 / "
                  "negative, drains of every amount class incl. negative and oversized, partial and whole deliveries of the peer's real bytes, crafted "
                  "single messages of every kind, corrupted and random bytes, registrations), generated state-aware by a shadow implementation; monitor: "
                  "after every step: everything drained so far ++ pending bytes == concatenation of the (independently packed) encodings of the accepted sends in call order; drain changes nothing but the pending bytes; every history is also replayed on the Lean model and the observables relevant to C12 are compared after every call; "
                  "plus (implementation only) pairs of sessions whose successful sends are interleaved with sends whose packing fails (un-encodable str "
-                 "argument) and with drains: each drained stream must equal the harness's own BER encoding of that session's successful sends; sessions "
+                 "argument) and with drains: each drained stream must equal the harness's own BER encoding of that session's successful sends; sessions with 40 KiB - 1 MiB of pending output, partial drains of explicit amounts and further sends in between; sessions "
                  "that hand the SAME argument objects (attribute, controls, filter, URI lists) to several sends and edit them in place in between; "
                  "distinct = distinct (session, call kind, outcome kind) sequences")
     return r
